@@ -130,8 +130,18 @@ def run(chk, tier):
         allowed = {"context::Context": {"context::Context::new"},
                    "metrics::Metrics": {"metrics::Metrics::new", "<metrics::Metrics as core::clone::Clone>::clone"},
                    "metrics::MetricsInner": {"metrics::Metrics::new", "<metrics::MetricsInner as core::default::Default>::default"}}
+        from gcv.props import common as _common
         for adt_, where in sites.items():
             extra = sorted(set(where) - allowed[adt_])
+            # a private assembling function (an explicit `MetricsInner::new()`, a shared `construct` helper) that takes no
+            # existing state and is reachable only through the constructors is part of them
+            kept = []
+            for w in extra:
+                wf = (prog.fn_n.get(w) or [{}])[0]
+                shares = any(("metrics::" in i["s"] or "context::" in i["s"]) for i in (wf.get("inputs") or []))
+                if shares or _common.escapes(prog, w, allowed[adt_] | {"context::Context::new"}) is not None or not list(prog.callers_of(w)):
+                    kept.append(w)
+            extra = kept
             chk.inst("per-arena-state-built-only-by-its-constructor", "%s[%s]" % (adt_, c), not extra,
                      detail="%s is assembled in %s: collector state can be created around (or shared with) existing state "
                             "of another arena" % (adt_, extra), sample={"type": adt_, "sites": sorted(set(where))})
